@@ -76,6 +76,13 @@ fn check_gone(w: &mut World<'_>, gone: &[Gone], stage: &str) -> bool {
                 if Some(f.id) != newest { w.violation(&format!("C08:frame-by-uri-not-newest:{stage}"), format!("frame_by_uri({:?}) returns frame {}, newest active version is {newest:?} (update produced {n})", g.uri, f.id)); return false; }
             }
             (Ok(f), None) => {
+                // another live frame may carry the same URI (separate puts may share one): it must be found
+                let newest = w.model.frames.iter().filter(|m| m.uri == g.uri && m.status == FrameStatus::Active).map(|m| m.id).max();
+                if let Some(n) = newest {
+                    w.rep.count("uri_lookups_with_another_live_frame");
+                    if f.id != n { w.violation(&format!("C08:frame-by-uri-not-newest:{stage}"), format!("frame_by_uri({:?}) returns frame {} ({:?}); frame {} was deleted and the newest active frame with that URI is {n}", g.uri, f.id, f.status, g.old)); return false; }
+                    continue;
+                }
                 // frame_by_uri deliberately falls back to an inactive frame when the URI has no active
                 // version; that is not an "active" lookup as long as the frame says it is deleted
                 if f.id == g.old && f.status == FrameStatus::Active { w.violation(&format!("C08:deleted-frame-returned-as-active:frame_by_uri:{stage}"), format!("frame_by_uri({:?}) returns frame {} as Active although it was deleted", g.uri, g.old)); return false; }
@@ -109,7 +116,9 @@ pub fn c08(rep: &mut Report, scratch: &std::path::Path, rng: &mut Rng, histories
                 let token = format!("gone{}x{}q", h, i);
                 let len = if w.rng.chance(1, 6) { w.rng.usize(2600, 3200) } else { w.rng.usize(30, 300) };
                 let text = text_of(&mut w.rng, len, &token);
-                let op = json!({"op": "put", "text": text, "token": token, "uri": format!("mv2://c08/Doc{i}"), "ts": 1_700_000_000 + i as i64 * 100, "instant": w.rng.chance(1, 3),
+                // a quarter of the documents re-use the URI of an earlier document (two live frames under one URI)
+                let uri_n = if i > 0 && w.rng.chance(1, 4) { w.rep.count("puts_sharing_a_uri"); w.rng.usize(0, i - 1) } else { i };
+                let op = json!({"op": "put", "text": text, "token": token, "uri": format!("mv2://c08/Doc{uri_n}"), "ts": 1_700_000_000 + i as i64 * 100, "instant": w.rng.chance(1, 3),
                     "title": format!("Title {i}"), "track": if w.rng.chance(1, 2) { Some("main") } else { None }, "kind": if w.rng.chance(1, 2) { Some("note") } else { None },
                     "tags": if w.rng.chance(1, 2) { vec![format!("t{i}")] } else { vec![] }, "labels": if w.rng.chance(1, 2) { vec!["lbl"] } else { vec![] },
                     "extra": {"k": format!("v{i}")}, "emb": if w.rng.chance(2, 3) { Some(emb_for(h * 100 + i as u64)) } else { None }, "triplets": false});
